@@ -4,7 +4,6 @@ from .brokergen import *
 
 HARNESS = "broker"
 CONST_GROUPS = ["security", "message", "cipher", "license"]
-READY = False
 RULE = ("one case = one broker session (default matcher): several named clients subscribing, unsubscribing, disconnecting and "
         "issuing presence requests (status and/or changes=true/false, on exact and parent channels, with keys with and without "
         "the presence permission); the status lists and the subscribe / unsubscribe notifications every watcher receives are "
